@@ -388,3 +388,59 @@ Qed.
 
 Lemma inv2_init : forall p, inv2 p (init p).
 Proof. intro p. unfold inv2; cbn. intuition (try discriminate; try congruence; try lia). Qed.
+
+(* ---------- receiver pipeline: walkChan -> fill -> c2 -> diff loop -> writers ---------- *)
+Definition wok (st : state) : Prop := eg_err st = false /\ forallb wr_done (wrs st) = true.
+Definition rl_holds (st : state) : nat := match rl_pc st with RL_Upd | RL_Push => 1 | _ => 0 end.
+Definition fl_holds (st : state) : nat := match fl_pc st with FL_Push => 1 | _ => 0 end.
+
+Definition inv3 (st : state) : Prop :=
+  (match do_pc st with DO_WaitDiff => True | _ => fl_pc st = FL_Done /\ dl_pc st = DL_Done end) /\
+  (match do_pc st with
+   | DO_WaitW | DO_LockFin | DO_SendFin => d_err st = false
+   | DO_Done => r_err st = false -> d_err st = false
+   | _ => True end) /\
+  (match do_pc st with
+   | DO_LockFin | DO_SendFin => wok st
+   | DO_Done => r_err st = false -> wok st
+   | _ => True end) /\
+  (g_fin_rs st = true -> do_pc st = DO_Done /\ d_err st = false /\ wok st) /\
+  (match fl_pc st with
+   | FL_Close true | FL_Ret true => walk_closed st = true /\ walk_n st = 0
+   | FL_Done => d_err st = false -> walk_closed st = true /\ walk_n st = 0
+   | _ => True end) /\
+  (c2_closed st = true -> match fl_pc st with FL_Ret _ | FL_Done => True | _ => False end) /\
+  (dl_pc st = DL_Done -> d_err st = false -> c2_closed st = true /\ c2_n st = 0) /\
+  (r_err st = false -> d_err st = false ->
+   match fl_pc st with FL_Close false | FL_Ret false => False | _ => True end ->
+   rl_i st = rl_holds st + walk_n st + fl_holds st + c2_n st + dl_i st).
+
+Lemma inv3_step : forall p st l st',
+  inv1 st -> inv2 p st -> inv3 st -> step p st l = Some st' -> inv3 st'.
+Proof.
+  intros p st l st' J1 J2 I H. unfold inv3 in I.
+  destruct J2 as (_ & _ & _ & _ & _ & K6 & K7 & _ & _).
+  destruct I as (I1 & I2 & I3 & I4 & I5 & I6 & I7 & I8).
+  unfold wok, rl_holds, fl_holds in *.
+  destruct l; unfold_steps H; step_split H; inv_some; subst; unfold inv3, wok, rl_holds, fl_holds;
+  repeat match goal with w : writer |- _ => destruct w; cbn in * end; subst; cbn;
+  repeat match goal with E : _ = _ |- _ => rewrite E in * end; cbn in *.
+  all: repeat match goal with
+       | H : (_ <? _) = true |- _ => apply Nat.ltb_lt in H
+       | H : (_ <? _) = false |- _ => apply Nat.ltb_ge in H
+       | H : (_ =? _) = true |- _ => apply Nat.eqb_eq in H
+       | H : _ && _ = true |- _ => apply andb_prop in H; destruct H
+       end.
+  all: try match goal with E : nth_error (wrs ?s) ?j = Some ?w |- _ =>
+         let F := fresh "F" in
+         assert (F: forallb wr_done (wrs s) = false) by (destruct (forallb wr_done (wrs s)) eqn:F'; auto; exfalso;
+           pose proof (forallb_nth _ _ _ _ _ F' E) as Q; discriminate Q);
+         rewrite F in * end.
+  all: try (intuition (try discriminate; try congruence; try lia; auto); fail).
+  all: try (destruct (do_pc st) eqn:?; intuition (try discriminate; try congruence; try lia; auto); fail).
+  all: try (destruct (fl_pc st) as [| |[]|[]|] eqn:?; intuition (try discriminate; try congruence; try lia; auto); fail).
+  all: try (destruct (do_pc st) eqn:?; destruct (fl_pc st) as [| |[]|[]|] eqn:?; intuition (try discriminate; try congruence; try lia; auto); fail).
+Qed.
+
+Lemma inv3_init : forall p, inv3 (init p).
+Proof. intro p. unfold inv3, wok, rl_holds, fl_holds; cbn. intuition (try discriminate; try congruence; try lia). Qed.
